@@ -99,7 +99,9 @@ META = {
 
 MANIFEST = {"technique": "symbolic execution of the real CBOR / bc32 / BCUR functions on symbolic payload bytes, 5-bit symbols, chunk "
                          "size and part headers; text carried as symbol handles; SHA-256 uninterpreted; z3 decides every path "
-                         "against an independent layout / regrouping / chunking specification"}
+                         "against an independent layout / regrouping / chunking specification; bc32 substitution detection by an "
+                         "XOR-affine normal form of the real bech32_polymod plus one z3 syndrome query per position (pair); histories "
+                         "(attack after a genuine reception in the same process)"}
 
 ALPHA = "qpzry9x8gf2tvdw0s3jn54khce6mua7l"   # harness copy of the bc32 character table (compared with the real one in O0)
 LETTER = tuple(1 if c.isalpha() else 0 for c in ALPHA)
